@@ -50,7 +50,7 @@ typedef struct simmpi_opts
   const char         *replay_log;       /* replay the decisions of this file; NULL = off */
   long                max_steps;        /* step guard; <= 0: default 20000000 */
   int                 livelock_polls;   /* hopeless polls per rank before LIVELOCK; <= 0: 64 */
-  int                 poll_budget;      /* hopeless polls a rank may run per epoch while others can work; <= 0: 2 */
+  int                 poll_budget;      /* hopeless polls a rank may run after each event that concerns it while others can work; <= 0: 4 */
   int                 max_denials;      /* bound K of consecutive "not yet" answers, < 0: 8 */
   long                eager_limit;      /* standard sends above this many bytes are never buffered; < 0: no limit */
   size_t              stack_kib;        /* coroutine stack size in KiB; 0: 2048 */
